@@ -379,6 +379,14 @@ fn client_run(c: &mut TcpStream, kind: char, id: usize) -> String {
             std::thread::sleep(Duration::from_millis(10));
             r
         }
+        'q' => {
+            // the next request arrives while the handler of the first one is still running (it waits in the gate)
+            if c.write_all(format!("GET /gate/g/{id} HTTP/1.1\r\n\r\n").as_bytes()).is_err() { return "wfail".to_string(); }
+            std::thread::sleep(Duration::from_millis(25));
+            let _ = c.write_all(b"GET /ok HTTP/1.1\r\n\r\n");
+            let r = read_response(&mut c);
+            r.split('/').next().unwrap().to_string()
+        }
         'x' => {
             // an upload that the handler refuses: longer than the limit it gives (413)
             let _ = c.write_all(b"POST /upsmall HTTP/1.1\r\ncontent-length: 200000\r\n\r\n");
@@ -412,7 +420,7 @@ pub fn case_limit(ctx: &mut Ctx, n: &str, kinds: &str, delays: &str) {
     let obs = guard(move || {
         let _logger = if stalled { Some(stalled_logger_guard()) } else { None };
         let srv = start(nn);
-        let gated = kinds_v.iter().filter(|k| "gepdEPD".contains(**k)).count();
+        let gated = kinds_v.iter().filter(|k| "gepdqEPD".contains(**k)).count();
         let handles: Vec<_> = kinds_v.iter().enumerate().map(|(i, &k)| {
             let (addr, d) = (srv.addr, delays_v[i]);
             std::thread::spawn(move || client(addr, k, i, d))
@@ -829,7 +837,7 @@ pub fn run_tokens(ctx: &mut Ctx) {
 pub fn run_limit(ctx: &mut Ctx) {
     let mut rng = Rng::new(ctx.seed.wrapping_add(12));
     let count = if ctx.thorough() { 160 } else { 24 };
-    let all = ['g', 'e', 'p', 'd', 'm', 'a', 'u', 'v', 'w', 'x', 'y', 'k', 'r', 'E', 'P', 'D', 'M'];
+    let all = ['g', 'e', 'p', 'd', 'm', 'a', 'u', 'v', 'w', 'x', 'y', 'q', 'k', 'r', 'E', 'P', 'D', 'M'];
     for idx in 0..count {
         let n = 1 + (idx as usize % 4);
         let clients = rng.range(2 * n as u64, 3 * n as u64) as usize;
@@ -842,7 +850,7 @@ pub fn run_limit(ctx: &mut Ctx) {
         if ctx.mine(idx + 1) { case_limit(ctx, &n.to_string(), &kinds, &format!("{prefix}{}", delays.join(","))); }
     }
     // histories made of connections that end in an error (malformed request, aborted upload with a reset), under a stalled logger
-    for (j, (n, kinds)) in [(2usize, "mmmmgg"), (1, "mmwmg"), (2, "wwwwgg"), (3, "mwmwmwggg"), (2, "MmMmgg"), (2, "xxxgg"), (1, "xxg"), (3, "xmxwxggg"), (2, "yyygg"), (1, "yg")].iter().enumerate() {
+    for (j, (n, kinds)) in [(2usize, "mmmmgg"), (1, "mmwmg"), (2, "wwwwgg"), (3, "mwmwmwggg"), (2, "MmMmgg"), (2, "xxxgg"), (1, "xxg"), (3, "xmxwxggg"), (2, "yyygg"), (1, "yg"), (1, "qqg"), (2, "qgqg")].iter().enumerate() {
         for prefix in ["L1:", ""] {
             if ctx.mine(1000 + j as u64) {
                 let delays: Vec<String> = (0..kinds.len()).map(|i| (i * 3).to_string()).collect();
@@ -939,6 +947,14 @@ pub fn run_c01k(ctx: &mut Ctx) {
     }
 }
 
+/// c13f: only the upload phases of c13 (a replacement server starts on the same cache directory while the stopped server's
+/// handler still works on the uploaded file).  Shared with C09.
+pub fn run_c13f(ctx: &mut Ctx) {
+    for (i, (n, ph, delay)) in [(1usize, "f", 0u64), (2, "fx", 15), (2, "ff", 30)].iter().enumerate() {
+        if ctx.mine(i as u64) { case_shutdown(ctx, &n.to_string(), ph, &delay.to_string()); }
+    }
+}
+
 /// c13w: only the "response being written" phase of c13 (a 6 MiB response to a client that is not reading yet, the permit
 /// revoked meanwhile): the response must arrive complete.  Shared with C06.
 pub fn run_c13w(ctx: &mut Ctx) {
@@ -963,9 +979,12 @@ pub fn run_shutdown(ctx: &mut Ctx) {
         let k = rng.range(1, n as u64) as usize;
         cases.push((n, (0..k).map(|_| phases[rng.below(phases.len() as u64) as usize]).collect()));
     }
+    // every slot held for 5.6 s without a revocation: the server goes on (no stopped signal before the revocation)
+    let long_hold = cases.len() + 1;
+    cases.push((1, "i".to_string()));
     for (n, ph) in cases {
         idx += 1;
-        let delay = rng.below(25).to_string();
+        let delay = if idx as usize == long_hold { "5600".to_string() } else { rng.below(25).to_string() };
         if ctx.mine(idx) { case_shutdown(ctx, &n.to_string(), &ph, &delay); }
     }
 }
